@@ -171,6 +171,7 @@ impl FrameDecoder {
         old(src)@.len() < 4 ==> r is Err,                                                   // [C15.frame.short] a body shorter than the rest of the header is an error
         old(src)@.len() >= 4 && (old(src)@[1] != FRAME_TYPE_AMQP || old(src)@[0] < 2) ==> r is Err,   // [C15.frame.type-doff] unknown frame type or malformed data offset (< 2) is an error (doff > 2: any outcome, but never a panic)
         r is Ok && old(src)@[0] == 2 ==> r->Ok_0 is Some && r->Ok_0->Some_0.channel == (old(src)@[2] as u16) * 256 + old(src)@[3] as u16,   // [C06.decode.channel]
+        old(src)@.len() == 4 && old(src)@[0] == 2 && old(src)@[1] == FRAME_TYPE_AMQP ==> r is Ok,                                       // [C17.decode.heartbeat-accepted] the 8-octet empty frame a peer sends as its heartbeat is accepted (not an error that would tear the connection down)
         r is Ok && old(src)@.len() == 4 && old(src)@[0] == 2 ==> r->Ok_0 is Some && r->Ok_0->Some_0.body is Empty,                  // [C17.decode.empty-frame] a bare header is the empty (heartbeat) frame
         r is Ok && old(src)@.len() > 4 && old(src)@[0] == 2 && r->Ok_0 is Some && r->Ok_0->Some_0.body is Transfer ==> ({
             let body = old(src)@.skip(4);
